@@ -1,3 +1,15 @@
 //! Verification hooks (guard: cargo feature `pendulum_project_ntpd_rs_verif`).
 //! Re-export plumbing only; no behaviour.
+pub use crate::algorithm::verif_hooks as algorithm;
+pub use crate::clock::verif_hooks as clock;
+pub use crate::config::verif_hooks as config;
+pub use crate::cookiestash::verif_hooks as cookiestash;
+pub use crate::identifiers::verif_hooks as identifiers;
+pub use crate::ipfilter::verif_hooks as ipfilter;
+pub use crate::keyset::verif_hooks as keyset;
+pub use crate::nts::verif_hooks as nts;
+pub use crate::packet::verif_hooks as packet;
+pub use crate::server::verif_hooks as server;
+pub use crate::source::verif_hooks as source;
+pub use crate::system::verif_hooks as system;
 pub use crate::time_types::verif_hooks as time_types;
